@@ -424,7 +424,7 @@ func whoInterpretsAnElision(r *an.Run, rule string) {
 		}
 		allowed[f] = "creates the implicit elision"
 		for _, c := range r.P.CallersOf(f) {
-			for _, g := range helperGroup(c.Parent(), 1) {
+			for _, g := range helperGroup(c.Parent(), 2) {
 				if _, ok := allowed[g]; !ok {
 					allowed[g] = "implicit elision of a statement list"
 				}
